@@ -288,6 +288,14 @@ def _run_form(name, spec, res):
                         bad = [e for e in kr_.interp.events if e.kind in ("oob_read", "oob_write", "uninit_read", "write_input", "redeclared")]
                         if bad:
                             res["events"].append(f"{name}:{k_.name}:{ents}: {bad[:3]}")
+                            oob = [e for e in bad if e.kind in ("oob_read", "oob_write") and e.array in ("A", "w", "c", "coordinate_dofs")]
+                            if oob:
+                                from .kernelprops import asan_run, contract_extents
+
+                                failed, log = asan_run(c, k_, contract_extents(fref, itd), ents, (0, 0))
+                                if failed:
+                                    res["violations"].append({"key": f"{name}:{itype}:{sid}:out-of-bounds:{oob[0].array}",
+                                                              "what": f"kernel accesses {oob[0].array}{oob[0].index} outside the extent the form implies ({oob[0].extent}); confirmed by ASan", "replay": None})
                         if kr is None:
                             kr = kr_
                         else:
